@@ -3,16 +3,21 @@ import sup
 
 RULE = ("one case = one generated object. M2 models: header version Vanilla(256)/TBC(260)/WotLK(264)/Cataclysm(272)/MoP(272) x an emptiness pattern over 29 "
         "sections (each empty / one / many; all-empty, all-one, all-many plus random mixes, so several variable-size sections are populated at once) x key-frame "
-        "density (none/sparse/most/all tracks carry ranges+timestamps+values, 0/1/many entries, occasionally shared between bones) x extreme floats (+-0, subnormals, "
+        "density (none/sparse/most/all tracks carry ranges+timestamps+values, 0/1/many entries, occasionally shared between bones) x array sharing inside a section "
+        "(private / some / most / every track references the time-stamp, range or value array of an earlier track of the same section - particle and ribbon emitters, "
+        "texture/colour/transparency animations, events, attachments, cameras, lights - under one original offset, as the parser returns shared arrays) x extreme floats (+-0, subnormals, "
         "+-inf, NaN payloads) x names of length 0/1/255/256/1000-5000. Per model: write -> independent walker -> parse -> projection equality -> second write "
-        "byte-identical -> convert(v->v) unchanged -> convert to each other version, write, walk, parse, compare the content both versions can represent. Skins: "
+        "byte-identical -> convert(v->v) unchanged -> convert to each other version, write, walk, parse, compare the content both versions can represent (incl. the "
+        "number of external skin profiles between versions >= 264). A second family (kind m2-shared) takes one track-bearing section at a time with many elements whose "
+        "tracks all (or mostly) share arrays while every other track-bearing section has one element, per version. Skins: "
         "old layout and new layout (version 1-3) x 0/1/many per array, typed parser + auto-detecting SkinFile::parse, conversions between layouts. Anim: modern "
         "(MAOF) and legacy objects, conversions between them. A case carries at most one 'risk' feature (a structural trigger predicate of an already triaged "
         "defect); cases with a risk report under the single signature risk=<predicate>, the clean sub-space is checked strictly under precise signatures. "
-        "distinct = distinct (kind, version/layout, risk, emptiness pattern) tuples whose object the writer accepted.")
+        "distinct = distinct (kind, version/layout, risk, emptiness pattern, share mode) tuples whose object the writer accepted.")
 ASSUME = [
     "an object is 'accepted by the writer' iff write returns Ok; Err is tallied (writer_rejected), a panic is reported",
     "generated objects are internally consistent: every track with count>0 has its payload in the raw key-frame list under the same (fake) original offset; "
+    "tracks that share an array carry the same original offset and the same bytes, and only arrays of equal element size are shared; "
     "vertex bone indices reference existing bones; skin bone_indices length is a multiple of 4; bounding data lengths are multiples of the element size",
     "version-dependent optional fields are generated in the form the parser produces for that version (seed elements are parsed from zero bytes, then edited by field assignment)",
     "across a conversion only fields that exist in both versions' records are compared (see projection_exclusions)",
@@ -23,7 +28,8 @@ EXCLUSIONS = [
     "M2Camera.id/flags before 264, M2Bone.bone_name_crc before 260, M2Track.ranges from 264 on, M2RibbonEmitter.texture_slice/variation before 272: the record has no such field "
     "in that version; generated in the parser's canonical form and excluded across conversions that cross the boundary",
     "M2Animation end_timestamp/replay (<=256 only) and extents/next_animation/aliasing (>256 only): excluded across conversions that cross the 256/260 boundary",
-    "embedded skins (views) across conversions to/from >=264: not representable (external .skin files); header.num_skin_profiles across conversions",
+    "embedded skins (views) across conversions to/from >=264: not representable (external .skin files); header.num_skin_profiles across conversions that cross the 264 boundary "
+    "(between two versions >= 264 it is compared)",
     "embedded-skin submesh records across the 260 boundary: only the record count and the leading 16 bytes (eight u16 fields common to the 32- and 48-byte layouts) are compared",
     "ribbon texture/material index arrays, particle model-filename / tile-coordinate arrays, SkinHeader.name, texture_flipbooks, color_replacements, playable_animation_lookup, "
     "blend_map_overrides, texture_combiner_combos, texture_transforms: the in-memory objects have no storage for their payload and the writer emits none; generated empty",
